@@ -137,6 +137,10 @@ func (mw *Middleware) Wrap(next dnsserver.Handler) (wrapped dnsserver.Handler) {
 		}
 
 		remoteIP := raddr.Addr()
+		if mw.isBlockedGlobally(ctx, req, remoteIP) {
+			return nil
+		}
+
 		loc, ecs, err := mw.location(ctx, req, remoteIP)
 		if err != nil {
 			return mw.processLocationErr(ctx, rw, req, err)
